@@ -16,6 +16,7 @@ import copy
 import json
 import os
 import random
+import threading
 
 import lib
 import pool
@@ -250,18 +251,32 @@ def run(ctx):
                     n += 3
     else:
         keep = cases
-    check_circuits(ctx, prep, shapes, keep, viol, stats)
-    ctx.log(f"enumerated circuits: {len(keep)} of {len(cases)} replayed, findings {len(viol)}")
-    check_sigs(ctx, shapes, stubs, viol, stats)
-    ctx.log(f"signatures checked: {stats['signatures']}")
-    # longer circuits sampled over the enumerated operations, expectation from TLC
+    # longer circuits sampled over the enumerated operations, expectation from TLC; TLC evaluates
+    # them (a subprocess) while the enumerated circuits are replayed
     alphabet = [[] for _ in shapes]
     for c in cases:
         if len(c["ops"]) == 1:
             alphabet[c["shape"] - 1].append(c["ops"][0])
     rng = random.Random(ctx.seed * 104729 + 26)
     sampled = probes(shapes) + sample(rng, shapes, alphabet, ctx.pick(80, 2500), ctx.pick(4, 4))
-    expect = tlc_cases(ctx, sampled)
+    box = {}
+
+    def evaluate():
+        try:
+            box["expect"] = tlc_cases(ctx, sampled)
+        except BaseException as e:  # noqa: BLE001
+            box["error"] = e
+
+    th = threading.Thread(target=evaluate)
+    th.start()
+    check_circuits(ctx, prep, shapes, keep, viol, stats)
+    ctx.log(f"enumerated circuits: {len(keep)} of {len(cases)} replayed, findings {len(viol)}")
+    check_sigs(ctx, shapes, stubs, viol, stats)
+    ctx.log(f"signatures checked: {stats['signatures']}")
+    th.join()
+    if "error" in box:
+        raise box["error"]
+    expect = box["expect"]
     ctx.log(f"TLC evaluated {len(sampled)} sampled circuits: {len(expect)} branches")
     # one measurement branch per sampled circuit (chosen by the seed), all branches in thorough
     by_cid = {}
